@@ -8,4 +8,5 @@ import GeoVerif.Ops.Pressure
 import GeoVerif.Ops.Hip
 import GeoVerif.Ops.Ramey
 import GeoVerif.Ops.ReadParam
+import GeoVerif.Ops.InputFile
 /-! Everything the driver needs (import-free models + ops). -/
